@@ -67,6 +67,10 @@ def run(chk):
                     for v in (k[:i] + sub + k[i + 1:], (k[:i] + sub + k[i + 1:]).upper() if sub not in ("\u0131",) else k[:i].upper() + sub + k[i + 1:].upper()):
                         if v not in cases and not v.isascii():
                             cases[v] = [-1, -1, -1, -1]
+    # ... and intruders outside ASCII, incl. ones that make the BYTE length of the string one of the admissible lengths (3, 4, 6, 8 digits)
+    for body in ("12\u00e9", "1\u00e93", "\u00e9\u00e9", "a\u00e9", "1234\u00e9", "\u00e912345", "12\u00e9456", "\u0663\u0663\u0663", "\uff11\uff12\uff13", "12345\u00e9", "1234567\u00e9",
+                 "\u00e91234567", "\u65e5\u672c", "\u65e51", "f\U0001F600", "\U0001F600\U0001F600", "12\u0661456", "1\u00b2345", "\u00bd23", "abc\u0301"):
+        cases.setdefault("#" + body, [-1, -1, -1, -1])
     strings = sorted(cases)
     n3 = sum(1 for s in strings if s.startswith("#") and len(s) == 4 and s == s.lower() and cases[s][0] >= 0)
     n4 = sum(1 for s in strings if s.startswith("#") and len(s) == 5 and s == s.lower() and cases[s][0] >= 0)
